@@ -79,8 +79,8 @@ Definition c20_example : circuit :=
 Example c20_nonvacuous_roundtrip :
   wf c20_example /\
   (exists r, read_ispd (export_ispd "design" c20_example) "design" = Some r /\ project r = project c20_example /\
-             circuit_hpwl r = 11) /\
-  circuit_hpwl c20_example = 11 /\
+             circuit_hpwl r = 23) /\
+  circuit_hpwl c20_example = 23 /\
   print_line (pin_line true (cells c20_example) (mkPin 0 1 (-2))) = tab ++ "o0 I : -0.5 -4.5" ++ newline.
 Proof.
   split; [apply wfb_correct; vm_compute; reflexivity|]. split; [|split; vm_compute; reflexivity].
